@@ -826,6 +826,68 @@ class SBuf(object):
     __lt__ = __gt__ = __le__ = __ge__ = lambda self, o: self._lt(o, 0)
 
 
+class SStream(object):
+    """io.BytesIO over cells that may be symbolic (concrete length, position and structure)."""
+    _pyvc_trusted = True
+
+    def __init__(self, initial=b''):
+        self.cells = list(initial.cells()) if isinstance(initial, SBuf) else list(initial)
+        self.pos = 0
+        self.closed = False
+
+    def tell(self):
+        return self.pos
+
+    def seek(self, pos, whence=0):
+        if isinstance(pos, (SInt, SBool)):
+            pos = engine().concretize(pos, what='stream position')
+        if whence == 1:
+            pos += self.pos
+        elif whence == 2:
+            pos += len(self.cells)
+        if pos < 0:
+            raise ValueError('negative seek value %d' % pos)
+        self.pos = pos
+        return pos
+
+    def _out(self, out):
+        if all(isinstance(c, int) for c in out):
+            return bytes(out)
+        return SBuf(out, 'bytes')
+
+    def read(self, n=-1):
+        if isinstance(n, (SInt, SBool)):
+            n = engine().concretize(n, what='read size')
+        if n is None or n < 0:
+            n = len(self.cells)
+        out = self.cells[self.pos:self.pos + n]
+        self.pos = min(len(self.cells), self.pos + len(out)) if out else self.pos
+        return self._out(out)
+
+    def write(self, b):
+        cs = to_cells(b)
+        if self.pos > len(self.cells):
+            self.cells.extend([0] * (self.pos - len(self.cells)))
+        self.cells[self.pos:self.pos + len(cs)] = cs
+        self.pos += len(cs)
+        return len(cs)
+
+    def truncate(self, size=None):
+        if size is None:
+            size = self.pos
+        del self.cells[size:]
+        return size
+
+    def getvalue(self):
+        return self._out(list(self.cells))
+
+    def close(self):
+        self.closed = True
+
+    def flush(self):
+        pass
+
+
 class SQuot(object):
     """Exact quotient n / 2**k of a symbolic integer (result of a float division); only truncation,
     floor and comparison with zero are supported."""
